@@ -150,6 +150,97 @@ inductive Bad (defs : List (Def K)) (sel : String → Bool) : List String → Li
       Selected defs sel g d → g.mods = [] → d.name ∉ stack → Instantiates d g body →
       Bad defs sel (stack ++ [d.name]) (body.map Instr.gate) → Bad defs sel stack src
 
+/-- The *kind* of an error: what the statement distinguishes ("cycles and arity or modifier misuse are
+reported as errors"); payloads (counts, the cycle stack, the offending qubit) and message text are not part
+of the property. -/
+inductive Kind where
+  | paramCount | cyclic | qubitCount | nonFixed | modifiers | invalidElem | undefinedElem
+  deriving DecidableEq, Repr, Inhabited
+
+def Err.kind : Err → Kind
+  | .paramCount .. => .paramCount
+  | .cyclic .. => .cyclic
+  | .qubitCount .. => .qubitCount
+  | .nonFixedQubit .. => .nonFixed
+  | .modifiers .. => .modifiers
+  | .invalidElemQubit .. => .invalidElem
+  | .undefinedElemQubit .. => .undefinedElem
+
+/-- **The misuse kinds that apply to one invocation** — with no priority among them: the property does not
+say which of several applicable errors is reported. -/
+inductive Misuse (defs : List (Def K)) (sel : String → Bool) (stack : List String) : Instr K → Kind → Prop
+  | paramCount {g d} : Selected defs sel g d → d.params.length ≠ g.params.length →
+      Misuse defs sel stack (.gate g) .paramCount
+  | modifiers {g d} : Selected defs sel g d → g.mods ≠ [] → Misuse defs sel stack (.gate g) .modifiers
+  | cyclic {g d} : Selected defs sel g d → d.name ∈ stack → Misuse defs sel stack (.gate g) .cyclic
+  | qubitCount {g d qvars gates} : Selected defs sel g d → d.spec = .seq qvars gates →
+      g.qubits.length ≠ qvars.length → Misuse defs sel stack (.gate g) .qubitCount
+  | nonFixed {g d q} : Selected defs sel g d → q ∈ g.qubits → (∀ n, q ≠ Qubit.fixed n) →
+      Misuse defs sel stack (.gate g) .nonFixed
+  | invalidElem {g d qvars gates e q} : Selected defs sel g d → d.spec = .seq qvars gates → e ∈ gates →
+      q ∈ e.qubits → (∀ v, q ≠ Qubit.var v) → Misuse defs sel stack (.gate g) .invalidElem
+  | undefinedElem {g d qvars gates e v} : Selected defs sel g d → d.spec = .seq qvars gates → e ∈ gates →
+      Qubit.var v ∈ e.qubits → v ∉ qvars → Misuse defs sel stack (.gate g) .undefinedElem
+
+/-- **The misuse kinds applicable somewhere the expansion can reach** (order-free): at an instruction of
+`src`, or inside the instantiated body of a well-formed selected invocation of `src`, recursively. An
+implementation may report any of them (whichever it meets or tests first). -/
+inductive MisuseAt (defs : List (Def K)) (sel : String → Bool) : List String → List (Instr K) → Kind → Prop
+  | here {stack src i k} : i ∈ src → Misuse defs sel stack i k → MisuseAt defs sel stack src k
+  | inside {stack src g d body k} : Instr.gate g ∈ src →
+      Selected defs sel g d → g.mods = [] → d.name ∉ stack → Instantiates d g body →
+      MisuseAt defs sel (stack ++ [d.name]) (body.map Instr.gate) k → MisuseAt defs sel stack src k
+
+def isFixed : Qubit → Bool
+  | .fixed _ => true
+  | _ => false
+def isVar : Qubit → Bool
+  | .var _ => true
+  | _ => false
+def unboundVar (qvars : List String) : Qubit → Bool
+  | .var v => !qvars.contains v
+  | _ => false
+
+/-- Bool form of `Misuse`: the applicable kinds of one instruction, in a fixed order -/
+def localKinds (defs : List (Def K)) (sel : String → Bool) (i : Instr K) (stack : List String) : List Kind :=
+  match i with
+  | .other _ => []
+  | .gate g =>
+    match findDef defs g.name with
+    | none => []
+    | some d =>
+      match d.spec with
+      | .other => []
+      | .seq qvars gates =>
+        if sel g.name then
+          (if d.params.length ≠ g.params.length then [Kind.paramCount] else []) ++
+          (if g.mods.isEmpty then [] else [Kind.modifiers]) ++
+          (if stack.contains d.name then [Kind.cyclic] else []) ++
+          (if g.qubits.length ≠ qvars.length then [Kind.qubitCount] else []) ++
+          (if g.qubits.all isFixed then [] else [Kind.nonFixed]) ++
+          (if gates.all (fun e => e.qubits.all isVar) then [] else [Kind.invalidElem]) ++
+          (if gates.any (fun e => e.qubits.any (unboundVar qvars)) then [Kind.undefinedElem] else [])
+        else []
+
+/-- Bool form of `MisuseAt`, same recursion scheme as the expansion (one unit of fuel per nesting level) -/
+def kindsWith (defs : List (Def K)) (sel : String → Bool)
+    (nested : List String → List (Instr K) → List Kind) (stack : List String) : List (Instr K) → List Kind
+  | [] => []
+  | i :: rest =>
+    localKinds defs sel i stack ++
+      (match gateSequenceFromInstruction defs sel i stack with
+        | .ok (some (body, name)) => nested (stack ++ [name]) body
+        | _ => []) ++
+      kindsWith defs sel nested stack rest
+
+def kindsFuel (defs : List (Def K)) (sel : String → Bool) : Nat → List String → List (Instr K) → List Kind
+  | 0 => fun _ _ => []
+  | n + 1 => kindsWith defs sel (kindsFuel defs sel n)
+
+/-- every misuse kind an implementation may legitimately report for this body -/
+def misuseKinds (defs : List (Def K)) (sel : String → Bool) (src : List (Instr K)) : List Kind :=
+  kindsFuel defs sel (defs.length + 1) [] src
+
 /-- `u`'s sequence has an element named `v`, and both are AS SEQUENCE definitions. -/
 def Mentions (defs : List (Def K)) (u v : String) : Prop :=
   ∃ d qvars gates e, findDef defs u = some d ∧ d.spec = .seq qvars gates ∧ e ∈ gates ∧ e.name = v ∧
